@@ -2,10 +2,12 @@ package main
 
 import "testing"
 
-func BenchmarkCase(b *testing.B) {
-	ops := []bop{{oNew, 0, kT}, {oEnter, 0, cCPU}, {oNew, 1, kUFR}, {oDrop, 0, 0}, {oLeave, 0, lRet}}
+func BenchmarkFam(b *testing.B) {
+	f := seqFamily("B-seq-2val-len5", bcfg{kinds: []uint8{kT, kUR, kUFR, kTres}, ctxKinds: permissive.ctxKinds, leaves: permissive.leaves, nvals: 2, maxDepth: 2, maxCtx: 2, length: 5}, 40)
+	b.ResetTimer()
+	n := uint64(0)
 	for i := 0; i < b.N; i++ {
-		runCase(ops, "lua")
-		runCase(ops, "go")
+		f.Run((n * 37) % f.Size)
+		n++
 	}
 }
